@@ -59,6 +59,7 @@ class Contract:
         self.recursive_ok = True
         self.normal_cases = None
         self.verify_body = True
+        self.effect_fn = None       # callers apply this deterministic state update instead of havoc + ensures
         self.spec_facts = False     # assume the ensures also when the call occurs inside a specification
         self.predicate_ = None      # (ghost predicate name, [param names]): "this call returns normally"
 
@@ -141,6 +142,13 @@ class Contract:
         """names the ghost predicate 'this function returns normally on these arguments' (definitional: assumed at
         call sites on the normal / negated on the raising outcome; the function must be deterministic)"""
         self.predicate_ = (name, list(args))
+        return self
+
+    def effect(self, fn):
+        """fn(engine, state, argument values): the call's effect on the caller's state, stated operationally (used for
+        stream appends, where the post-state is a function of the pre-state); must agree with `ensures` - the function's
+        own verification checks the ensures, callers use the effect"""
+        self.effect_fn = fn
         return self
 
     def trust(self, reason):
